@@ -182,7 +182,7 @@ def run(tier):
     # texts the parser accepts although no grammar machine derives them: token-level mutants of derived programs that
     # still parse (the property quantifies over every source text that parses, valid C or not)
     from . import c06
-    mjobs = [(e["toks"], rnd.randrange(1 << 30)) for e in rnd.sample(progs, 1500 if tier == "quick" else 20000)]
+    mjobs = [(e["toks"], rnd.randrange(1 << 30)) for e in rnd.sample(progs, min(len(progs), 1500 if tier == "quick" else 20000))]
     mitems = []
     for lst in pmap(_accepted_mutants, mjobs, chunk=16):
         # (the label names what an open finding is keyed on)
